@@ -86,6 +86,33 @@ theorem strip_sound_lineterm (lk : LookFn) (h h' : Hir) (lt : LineTerm) (hay : B
       · exact strip_sound lk h1 h' 10 hay s e hs hm
     · cases hs
 
+/-- The same for `strip_from_match` as the real code runs it, with the smart-constructor pass `norm`
+between the two CRLF passes (`norm` adds no matches). -/
+theorem stripN_sound (lk : LookFn) (norm : Hir → Hir)
+    (hnorm : ∀ h hay s e, Matches lk (norm h) hay s e → Matches lk h hay s e)
+    (h h' : Hir) (lt : LineTerm) (hay : Bytes) (s e : Nat)
+    (hs : stripN norm h lt = .ok h') (hm : Matches lk h' hay s e) : ∀ b ∈ lt.bytes, b ∉ slice hay s e := by
+  cases lt with
+  | byte b0 =>
+    intro b hb
+    simp only [LineTerm.bytes, List.mem_singleton] at hb
+    subst hb
+    exact strip_sound lk h h' b hay s e hs hm
+  | crlf =>
+    simp only [stripN] at hs
+    split at hs
+    · rename_i h1 hs1
+      intro b hb
+      simp only [LineTerm.bytes, List.mem_cons, List.not_mem_nil, or_false] at hb
+      rcases hb with rfl | rfl
+      · have hs' := hs
+        unfold stripAscii at hs'
+        split at hs'
+        · cases hs'
+        · exact strip_sound lk h h1 13 hay s e hs1 (hnorm _ _ _ _ (stripGo_mono (norm h1) h' hs' hm))
+      · exact strip_sound lk (norm h1) h' 10 hay s e hs hm
+    · cases hs
+
 /-! ### (b) declared non-matching bytes occur in no match -/
 
 theorem nonmatching_sound (lk : LookFn) (h : Hir) (b : Nat) (hay : Bytes) (s e : Nat)
@@ -200,7 +227,7 @@ theorem C11 (lk : LookFn) (cfg : Config) (pats : List Bytes) (translated : Hir) 
       | some lt =>
         simp only [hlt, Option.map_some, Option.getD_some] at ht
         exact configuredHir_noTerm hcfg hlt hm0
-          (fun h' hs hm' => strip_sound_lineterm lk translated h' lt hay s e hs hm') t ht
+          (fun h' hs hm' => stripN_sound lk norm hnorm translated h' lt hay s e hs hm') t ht
     refine ⟨ha, ?_, ?_⟩
     · -- (b)
       intro b hb
@@ -264,7 +291,7 @@ theorem C11 (lk : LookFn) (cfg : Config) (pats : List Bytes) (translated : Hir) 
             | some lt =>
               simp only [hlt, Option.map_some, Option.getD_some] at ht
               exact configuredHir_noTerm hcfg hlt hm1'
-                (fun h' hs hm' => strip_sound_lineterm lk translated h' lt hay s1 i hs hm') t ht
+                (fun h' hs hm' => stripN_sound lk norm hnorm translated h' lt hay s1 i hs hm') t ht
           intro j h1 h2
           exact hfree j (by omega) h2
 
